@@ -173,10 +173,13 @@ class Group:
 
 def sub_group(adds, pattern):
     g = Group()
+    g.program = []          # the statements of lint_group(), in source order (transliterated, not simulated)
     for k in adds:
         ok = g.add_pattern(k) if pattern else g.add(k)
+        g.program.append(("RAddPattern" if pattern else "RAdd", k))
         # a refused add is legal Rust; the table stays faithful because we simulate it
     g.set_all(True)
+    g.program.append(("RSetAll", True))
     return g
 
 
@@ -212,6 +215,7 @@ def curated(repo):
     if "out.add_pattern_linter(stringify!($rule),Box::new($rule::default()));out.config.set_rule_enabled(stringify!($rule),$default_config);" not in norm(defs["insert_pattern_rule"]):
         raise ValueError("insert_pattern_rule! changed shape")
     out = Group()
+    program = []            # new_curated's statements in source order: ("TMerge", sub) | ("RAdd"|"RAddPattern", k) | ("RSetEnabled", k, b)
     stmts = []
     depth, cur = 0, []
     for c in body:                      # split at top-level ';' (string literals hold no ';' here; checked below)
@@ -236,19 +240,25 @@ def curated(repo):
             if m.group(1) not in subs:
                 raise ValueError("new_curated merges an unknown sub-group: " + m.group(1))
             out.merge_from(subs[m.group(1)])
+            program.append(("TMerge", m.group(1)))
             continue
         m = re.fullmatch(r"insert_(struct|pattern)_rule!\((\w+),(true|false)\)", n)
         if m:
             (out.add if m.group(1) == "struct" else out.add_pattern)(m.group(2))
             out.config[m.group(2)] = (m.group(3) == "true")
+            # the macro's expansion (its shape is checked above): add / add_pattern_linter, then config.set_rule_enabled
+            program.append(("RAdd" if m.group(1) == "struct" else "RAddPattern", m.group(2)))
+            program.append(("RSetEnabled", m.group(2), m.group(3) == "true"))
             continue
         m = re.fullmatch(r'out\.(add|add_pattern_linter)\("(\w+)",Box::new\(.*\),?\)', n)
         if m:
             (out.add if m.group(1) == "add" else out.add_pattern)(m.group(2))
+            program.append(("RAdd" if m.group(1) == "add" else "RAddPattern", m.group(2)))
             continue
         m = re.fullmatch(r'out\.config\.set_rule_enabled\("(\w+)",(true|false)\)', n)
         if m:
             out.config[m.group(1)] = (m.group(2) == "true")
+            program.append(("RSetEnabled", m.group(1), m.group(2) == "true"))
             continue
         raise ValueError("new_curated: statement not understood by the translator: %r" % s[:120])
     # NOTE: LintGroup::merge_from extends both maps without the contains_key test of add(), so a name
@@ -262,7 +272,44 @@ def curated(repo):
         raise ValueError("implausibly few rules: %d" % len(out.config))
     counts = {"phrase_corrections": len(phrase), "proper_nouns": len(proper), "closed_compounds": len(closed),
               "named": len([s for s in stmts if re.match(r"insert_(struct|pattern)_rule!|out\s*\.\s*add", s)])}
+    out.program, out.subs = program, subs
     return out, counts
+
+
+def coq_stmt(st):
+    if st[0] in ("RAdd", "RAddPattern"):
+        return "%s %s (* %s *)" % (st[0], coq_key(st[1]), st[1])
+    if st[0] == "RSetEnabled":
+        return "RSetEnabled %s %s (* %s *)" % (coq_key(st[1]), "true" if st[2] else "false", st[1])
+    if st[0] == "RSetAll":
+        return "RSetAll (Some %s)" % ("true" if st[1] else "false")
+    raise ValueError("unknown statement %r" % (st,))
+
+
+def coq_program(g):
+    """the statement sequences themselves (executed by Model/C11Curated.v; Proofs/C11CuratedProofs.v proves that the
+       execution yields exactly the two tables above, so the simulation in this file is a checked witness only)"""
+    out = ["(* the statements of LintGroup::new_curated and of the three lint_group() functions it merges, in source order.\n"
+           "   RAdd = group.add(name, ..), RAddPattern = group.add_pattern_linter(name, ..) (results discarded, as in the code),\n"
+           "   RSetEnabled = group.config.set_rule_enabled(name, b), RSetAll = group.set_all_rules_to(v);\n"
+           "   insert_struct_rule!/insert_pattern_rule! are expanded (add, then set_rule_enabled).\n"
+           "   TMerge sub = out.merge_from(&mut <sub>::lint_group()), sub's statements starting from an empty group.\n"
+           "   curated_sub_proper_noun_capitalization_linters adds its rules in HashMap iteration order in the code: the order\n"
+           "   below is that of proper_noun_rules.json; C11_new_curated_program proves the result is the same for every order. *)\n"
+           "Inductive rstmt : Type :=\n| RAdd (name : list N)\n| RAddPattern (name : list N)\n| RSetEnabled (name : list N) (b : bool)\n| RSetAll (v : option bool).\n"
+           "Inductive tstmt : Type :=\n| TStmt (s : rstmt)\n| TMerge (sub : list rstmt)."]
+    for name in ("phrase_corrections", "proper_noun_capitalization_linters", "closed_compounds"):
+        rows = ["  " + coq_stmt(st) for st in g.subs[name].program]
+        out.append("Definition curated_sub_%s : list rstmt := [\n%s\n]." % (name, ";\n".join(rows)))
+    rows = []
+    for st in g.program:
+        if st[0] == "TMerge":
+            rows.append("  TMerge curated_sub_%s" % st[1])
+        else:
+            body, _, comment = coq_stmt(st).partition(" (* ")
+            rows.append("  TStmt (%s) (* %s" % (body, comment))
+    out.append("Definition curated_program : list tstmt := [\n%s\n]." % ";\n".join(rows))
+    return "\n\n".join(out)
 
 
 def coq_key(k):
@@ -286,7 +333,8 @@ def generate(repo):
            "   Names registered in BOTH maps (one switch, two rules): %s.  Distinct switches: %d. *)\n"
            % (len(S), len(P), counts["phrase_corrections"], counts["proper_nouns"], counts["closed_compounds"], counts["named"],
               ", ".join(sorted(g.linters & g.patterns)) or "none", len(g.config)))
-    return hdr + "Require Import Base.\n\n" + table("curated_struct_rules", S) + "\n\n" + table("curated_pattern_rules", P) + "\n"
+    return (hdr + "Require Import Base.\n\n" + table("curated_struct_rules", S) + "\n\n" + table("curated_pattern_rules", P)
+            + "\n\n" + coq_program(g) + "\n")
 
 
 if __name__ == "__main__":
